@@ -111,4 +111,6 @@ def run_validator(text, ack=True, html=False, xml=False, charset=None, source=No
 
 
 def err_tuples(errors, with_msg=False):
-    return sorted((e['level'], e['isa'], e['gs'], e['st'], e['seg_id'], e['pos'], e['ele'], e['sub'], e['code'], e['value'] or '') for e in errors)
+    # canonical order only: any total order will do (fields may be None in one tuple and a number in another)
+    return sorted(((e['level'], e['isa'], e['gs'], e['st'], e['seg_id'], e['pos'], e['ele'], e['sub'], e['code'], e['value'] or '') for e in errors),
+                  key=lambda t: tuple((x is None, str(x)) for x in t))
